@@ -66,7 +66,8 @@ ObsInit == [
     q1acked  |-> {},           \* broker QoS 1 messages acknowledged by the client
     hostile  |-> FALSE,        \* the broker sent something a conformant broker would not (raw bytes, a SUBACK with wrong codes)
     relsd    |-> {},           \* QoS 2 requests whose successful PUBREC the client has consumed (hook: dispatch / wait)
-    recd     |-> {},           \* QoS 2 requests whose successful PUBREC the client has read off the connection (hook: dispatch)
+    recd     |-> {},           \* [id, x]: the client has read a successful PUBREC for QoS 2 request id while nobody waited for it
+                               \* (hook: dispatch); x = the PUBLISH transmission (index into pkts) it answers
     subOk    |-> FALSE,        \* a subscription succeeded since start / last session_expired report
     owed     |-> 0,            \* session_expired reports owed and not yet delivered
     expired  |-> 0,            \* session_expired reports delivered
@@ -318,12 +319,14 @@ StepHook(o, e) ==
     IF (e.k = "dispatch" \/ e.k = "wait") /\ e.a = 80 /\ e.c = 1 THEN
         LET ids == {id \in OpIds(o) : o.ops[id].kind = "pub2" /\ o.ops[id].pid = e.b /\ o.ops[id].done = 0}
             recs == {j \in DOMAIN o.sent : o.sent[j].type = "PUBREC" /\ o.sent[j].pid = e.b}
-        IN IF ids # {} /\ recs # {} /\ o.sent[Max(recs)].rc < 128 THEN [o EXCEPT !.relsd = @ \cup ids, !.recd = @ \cup ids] ELSE o
+        IN IF ids # {} /\ recs # {} /\ o.sent[Max(recs)].rc < 128 THEN [o EXCEPT !.relsd = @ \cup ids] ELSE o
     ELSE IF e.k = "dispatch" /\ e.a = 80 THEN
         \* read, no request waiting for it yet: kept as a "fast reply" for the request whose write is still completing
         LET ids == {id \in OpIds(o) : o.ops[id].kind = "pub2" /\ o.ops[id].pid = e.b /\ o.ops[id].done = 0}
             recs == {j \in DOMAIN o.sent : o.sent[j].type = "PUBREC" /\ o.sent[j].pid = e.b}
-        IN IF ids # {} /\ recs # {} /\ o.sent[Max(recs)].rc < 128 THEN [o EXCEPT !.recd = @ \cup ids] ELSE o
+            tx == {x \in DOMAIN o.pkts : o.pkts[x].type = "PUBLISH" /\ o.pkts[x].pid = e.b}     \* the transmission it answers: the latest
+        IN IF ids # {} /\ recs # {} /\ tx # {} /\ o.sent[Max(recs)].rc < 128
+             THEN [o EXCEPT !.recd = @ \cup {[id |-> id, x |-> Max(tx)] : id \in ids}] ELSE o
     ELSE o
 
 ObsStep(o, e) ==
@@ -463,8 +466,8 @@ PktClauses(o, e) ==
     \cup (IF e.type = "PUBLISH" /\ ids # {} /\ Min(ids) \in o.relsd THEN {"C03_a_PublishAfterPubrecConsumed"} ELSE {})
     \* ... nor after it has read the PUBREC while the write that carried the PUBLISH succeeded (the request then
     \* finds the acknowledgement when it starts waiting; dropping it would make the client publish again)
-    \cup (IF e.type = "PUBLISH" /\ ids # {} /\ Min(ids) \in o.recd /\ Min(ids) \notin o.relsd /\ \E x \in earlier :
-                 o.pkts[x].w \in DOMAIN o.wr /\ o.wr[o.pkts[x].w].res = 1
+    \cup (IF e.type = "PUBLISH" /\ ids # {} /\ Min(ids) \notin o.relsd /\ \E r \in o.recd :
+                 r.id = Min(ids) /\ o.pkts[r.x].w \in DOMAIN o.wr /\ o.wr[o.pkts[r.x].w].res = 1
             THEN {"C03_a_PublishAfterPubrecRead"} ELSE {})
     \* C06: PUBLISH packets leave in initiation order
     \cup (IF known /\ e.type = "PUBLISH" /\ ids # {} /\ (e.qos > 0 \/ cr.rm = 65535) /\ \E x \in DOMAIN cr.ords :
